@@ -235,3 +235,51 @@ def make_pool(rnd, n_ops, present_c01=("sparse_unsorted_cols", "concat_assert_wr
             want.pop(0)
         pool.append(dict(tree=t, op=A, arrays=arrays, base=base.copy(), ann=ann_names(A), shape=(m, n), dtype=str(np.dtype(A.dtype))))
     return pool, rejected
+
+
+# ---------------------------------------------------------------- alias-prone composites
+def alias_prone_trees(rnd):
+    """composites whose FIRST / MIDDLE / LAST child is an operator whose product may return (a view of) its argument
+    (Identity, Product(I,I), Transpose(Transpose(I))), for every composite kind, with Dense / Diagonal siblings"""
+    def I(n, dt="float64"):
+        return dict(k="Ident", dt=dt, n=n)
+
+    def Dn(m, n, dt="float64"):
+        return dict(k="Dense", dt=dt, a=[[[rnd.randint(-3, 3), 0] for _ in range(n)] for _ in range(m)])
+
+    def Dg(n, dt="float64"):
+        return dict(k="Diag", dt=dt, d=[[rnd.randint(1, 4), 0] for _ in range(n)])
+    out = []
+    for dt in ("float64", "float32"):
+        aliasers = [lambda n: I(n, dt), lambda n: dict(k="Prod", ms=[I(n, dt), I(n, dt)]), lambda n: dict(k="Transp", a=dict(k="Transp", a=I(n, dt)))]
+        for mk in aliasers[: (3 if dt == "float64" else 1)]:
+            for n in (2, 3):
+                sib = [Dn(n, n, dt), Dg(n, dt)]
+                for pos in (0, 1, 2):
+                    three = list(sib)
+                    three.insert(pos, mk(n))
+                    two = [mk(n), sib[0]] if pos == 0 else ([sib[0], mk(n)] if pos == 2 else None)
+                    for kind in ("KronSum", "Kron", "Sum", "Prod", "BDiag", "Concat"):
+                        for ms in ([three] + ([two] if two else [])):
+                            if kind == "Kron" and len(ms) == 3 and n == 3:
+                                continue      # 27 x 27: keep the pool small
+                            t = dict(k=kind, ms=[dict(x) for x in ms])
+                            if kind == "BDiag":
+                                t["mu"] = [1 + (i % 2) for i in range(len(ms))]
+                            if kind == "Concat":
+                                t["axis"] = 0
+                            out.append(t)
+                out.append(dict(k="Transp", a=mk(n)))
+                out.append(dict(k="Adj", a=mk(n)))
+                out.append(dict(k="Sliced", a=mk(n), rs=list(range(n)), cs=list(range(n))))
+                out.append(dict(k="KronSum", ms=[mk(n), mk(2)]))
+                out.append(dict(k="Kron", ms=[mk(n), mk(1)]))
+                out.append(dict(k="Sum", ms=[mk(n), mk(n)]))
+    return out
+
+
+def entry_of(t):
+    arrays = []
+    A = build_rec(t, arrays)
+    base = np.asarray(A.to_dense())
+    return dict(tree=t, op=A, arrays=arrays, base=base.copy(), ann=ann_names(A), shape=tuple(A.shape), dtype=str(np.dtype(A.dtype)))
